@@ -66,11 +66,15 @@ def render_expr(e, ind=1):
     if k == 'intr':
         return '%s(%s)' % (e[1], ', '.join(render_expr(a, ind) for a in e[2]))
     if k == 'lambda':
-        return '|%s| %s' % (', '.join(e[1]) if e[1] else ' ', render_block(e[2], ind))
+        return '|%s| %s' % (', '.join(n if isinstance(n, str) else '%s:%s' % tuple(n) for n in e[1]) if e[1] else ' ', render_block(e[2], ind, force=any(not isinstance(n, str) for n in e[1])))
     if k == 'record':
         return '{%s}' % ', '.join('%s = %s' % (n, render_expr(v, ind)) for n, v in e[1])
     if k == 'field':
         return '%s.%s' % (render_expr(e[1], ind), e[2])
+    if k == 'callrec':
+        if len(e) > 3 and e[3] == 'dots':
+            return '{%s, ..} |> %s' % (', '.join('%s = %s' % (n, render_expr(v, ind)) for n, v in e[2]), e[1])
+        return '%s({%s})' % (e[1], ', '.join('%s = %s' % (n, render_expr(v, ind)) for n, v in e[2]))
     if k == 'pipe':
         return '(%s |> %s)' % (render_expr(e[1], ind), e[2])
     raise ValueError(k)
@@ -100,7 +104,7 @@ def render_program(p):
     for n, e in p.get('globals', []):
         out.append('let %s = %s\n' % (n, render_expr(e, 0)))
     for name, params, body in p['fns']:
-        ps = ', '.join('%s:%s' % (a, t) if t else a for a, t in params)
+        ps = ', '.join((('%s:%s' % (q[0], q[1]) if q[1] and len(q) < 3 else q[0]) + (' = %s' % render_expr(q[2], 0) if len(q) > 2 else '')) for q in params)
         ret = ''
         out.append('fn %s(%s)%s{\n  %s\n}\n' % (name, ps, ret, render_expr(body, 1)))
     return ''.join(out)
@@ -181,8 +185,8 @@ class RefEval(object):
             if len(ps) == 1 and len(inputs) != 1:
                 env[ps[0][0]] = Cell(tuple(inputs))
             else:
-                for (n, _), v in zip(ps, inputs):
-                    env[n] = Cell(v)
+                for q, v in zip(ps, inputs):
+                    env[q[0]] = Cell(v)
         out = self.call_body('dsp', body, env, ('dsp',))
         # cells not visited this sample keep their value
         for k, v in self.state.items():
@@ -295,7 +299,7 @@ class RefEval(object):
             args = [self.eval(a, env, path + ((i, self.site(e)),), frame) for i, a in enumerate(e[2])]
             return self.intrinsic(e[1], args)
         if k == 'lambda':
-            return Closure(e[1], e[2], env, self.site(e))
+            return Closure([n if isinstance(n, str) else n[0] for n in e[1]], e[2], env, self.site(e))
         if k == 'pipe':
             return self.eval(('call', e[2], [e[1]]), env, path, frame)
         if k == 'call':
@@ -306,10 +310,23 @@ class RefEval(object):
             if e[1] in self.fns:
                 ps, body = self.fns[e[1]]
                 cenv = dict(self.genv)
-                for (n, _), v in zip(ps, args):
-                    cenv[n] = Cell(v)
+                for q, v in zip(ps, args):
+                    cenv[q[0]] = Cell(v)
                 return self.call_body(e[1], body, cenv, cpath)
             raise RefError('unknown function %s' % e[1])
+        if k == 'callrec':
+            # `{k = e, ..} |> f`: parameters are bound BY NAME, the missing ones take their declared default
+            given = dict((n, self.eval(v, env, path + (('r_' + n, self.site(e)),), frame)) for n, v in e[2])
+            ps, body = self.fns[e[1]]
+            cenv = dict(self.genv)
+            for q in ps:
+                if q[0] in given:
+                    cenv[q[0]] = Cell(given[q[0]])
+                elif len(q) > 2:
+                    cenv[q[0]] = Cell(self.eval(q[2], self.genv, path + (('d_' + q[0], self.site(e)),), frame))
+                else:
+                    raise RefError('missing argument %s' % q[0])
+            return self.call_body(e[1], body, cenv, path + (('call', self.site(e)),))
         if k == 'callv':
             f = self.eval(e[1], env, path + (('f', self.site(e)),), frame)
             args = [self.eval(a, env, path + (('a%d' % i, self.site(e)),), frame) for i, a in enumerate(e[2])]
